@@ -127,7 +127,10 @@ def run(rep):
         cfg = CFGS[gi % 2]
         pre = [{"op": "update_currency", "cur": p["cur"], "rate": rate_float(p["q"])} for p in c["pre"]]
         two = line["form"] != "money_lit" and (line.get("target") or line.get("r", {}).get("cur")) != (line.get("x") or line.get("l"))["cur"]
-        for var, text in renderings(line, cfg, gi, gi % 11 == 0):
+        rs = renderings(line, cfg, gi, gi % 11 == 0)
+        if len(c["pre"]) == 1:
+            rs = rs[:1]          # the rate-frame family (one update, then a conversion): one spelling each
+        for var, text in rs:
             items.append({"line": line, "text": text, "cfg": cfg, "lang": "en", "expected": c["expected"], "variant": var, "pre": pre,
                           "feat": feat_of(line, text), "class_fn": cls, "nontrivial": two})
     forms.replay(rep, items, "c06.gen")
